@@ -595,6 +595,16 @@ func cmdExec(args []string) {
 	for i, p := range pf.Plans {
 		res, viol := evalRun(p, i, *trace, false)
 		rep.Hashes = append(rep.Hashes, fmt.Sprintf("%016x", res.Hash))
+		if i < len(pf.Plans)-1 {
+			// the persistent vault is re-read after every run here (in the search
+			// only every 64th run): a change it notices after an EARLIER plan of the
+			// file is the change the search saw later
+			for _, v := range viol {
+				if v.Class == "string-changed" || v.Class == "error-changed" {
+					rep.Violations = append(rep.Violations, v)
+				}
+			}
+		}
 		if i == len(pf.Plans)-1 {
 			if p.Prop == "C14" && len(viol) == 0 {
 				viol = append(viol, pristineAll(res)...)
@@ -940,6 +950,11 @@ func compactPlan(p *Plan) *Plan {
 			if op.D >= 0 && op.K != kExtra && op.K != kErrStr {
 				used[op.D] = true
 			}
+			for _, i := range op.argCells() {
+				if i >= 0 {
+					used[i] = true
+				}
+			}
 		}
 	}
 	cellMap := map[int]int{}
@@ -966,6 +981,14 @@ func compactPlan(p *Plan) *Plan {
 			}
 			if op.D >= 0 && op.K != kExtra && op.K != kErrStr {
 				op.D = cellMap[op.D]
+			}
+			if ac := op.argCells(); len(ac) > 0 {
+				for k := range ac {
+					if ac[k] >= 0 {
+						ac[k] = cellMap[ac[k]]
+					}
+				}
+				op.A = joinInts(ac)
 			}
 		}
 	}
